@@ -257,6 +257,37 @@ func applyDocEdit(doc *JV, op Op) bool {
 		}
 		pay.Set("advances", &JV{K: 'a', A: []*JV{mk(op.S2), mk(op.S2), mk("3.333%")}})
 		return true
+	case "sloppy":
+		// a sloppily typed value somewhere in the document: padding, case, doubled blanks, a
+		// dangling separator. Whatever the normalisers make of it, they must get there in one pass.
+		var leaves []*JV
+		for _, nd := range Walk(doc, "") {
+			if nd.V.K == 's' && nd.Key != "$schema" && nd.Key != "uuid" && nd.Key != "$regime" && len(nd.V.S) > 0 && len(nd.V.S) < 60 {
+				leaves = append(leaves, nd.V)
+			}
+		}
+		if len(leaves) == 0 {
+			return false
+		}
+		v := leaves[int(op.I)%len(leaves)]
+		old := v.S
+		switch op.J % 7 {
+		case 0:
+			v.S = "  " + v.S + " "
+		case 1:
+			v.S = strings.ToLower(v.S)
+		case 2:
+			v.S = strings.ToUpper(v.S)
+		case 3:
+			v.S = strings.ReplaceAll(v.S, " ", "  ") + " "
+		case 4:
+			v.S = v.S + " -"
+		case 5:
+			v.S = "- " + v.S
+		case 6:
+			v.S = v.S + "\t\n"
+		}
+		return v.S != old
 	case "rmdefaulted":
 		// members the calculation fills in when they are absent
 		return doc.Del(op.S2)
@@ -339,7 +370,7 @@ func applyDocEdit(doc *JV, op Op) bool {
 	return false
 }
 
-var editKinds = []string{"qty", "price", "rmline", "dupline", "note", "rounding", "custname", "code", "breakdown", "linedisc", "linecharge", "docdisc", "advances", "codeweird", "addrweird", "taxidweird", "amountprec", "mixrates", "mixrates", "rmdefaulted"}
+var editKinds = []string{"qty", "price", "rmline", "dupline", "note", "rounding", "custname", "code", "breakdown", "linedisc", "linecharge", "docdisc", "advances", "codeweird", "addrweird", "taxidweird", "amountprec", "mixrates", "mixrates", "rmdefaulted", "sloppy", "sloppy", "sloppy"}
 
 func genEdit(r *rand.Rand, id int) Op {
 	k := Pick(r, editKinds)
@@ -369,6 +400,8 @@ func genEdit(r *rand.Rand, id int) Op {
 		op.S2 = Pick(r, []string{"10.12345", "0.005", "1.2349", "3.14159265"})
 	case "rmdefaulted":
 		op.S2 = Pick(r, []string{"type", "currency", "$regime", "type", "tax"})
+	case "sloppy":
+		op.I, op.J = int64(r.IntN(1<<16)), int64(r.IntN(7))
 	}
 	return op
 }
